@@ -1122,10 +1122,11 @@ def report(ck, res):
                          found_input=False)
     rcv = res.get('refconv') or {}
     ck.cov['reference_converter_tie'] = {k: v for k, v in rcv.items() if k not in ('violations',)}
-    for sig, what in rcv.get('violations', []):
-        ck.add_violation(sig, what, {'stream': 'c01_refconv', 'how': 'pipe the op line to lean/.lake/build/bin/drv_c01; the same model is written by '
-                                     'checks/c01_refconv.py build() and run through recsolver with RECSOLVER_ACCEPT = NATIVE|LINEAR'},
-                         found_input=(sig == 'refconv-property'))
+    for sig, what, ex in rcv.get('violations', []):
+        rep = {'stream': 'c01_refconv', 'how': 'pipe the op line to lean/.lake/build/bin/drv_c01; the same model is written by '
+               'checks/c01_refconv.py build() and run through recsolver with RECSOLVER_ACCEPT = NATIVE|LINEAR (flat model: FLAT)'}
+        rep.update(ex)
+        ck.add_violation(sig, what, rep, found_input=sig.startswith('refconv-property'))
     if not res.get('proof_ok', True):
         for fdecl in res.get('failing', []):
             ck.add_violation('obligation:%s' % fdecl, 'proof obligation no longer checks: %s' % fdecl,
@@ -1374,10 +1375,10 @@ def run_gadgets(ck, n_cases=None, proof=True):
     # round 5: the Lean reference converter `convert` against the real converter on generated models of its fragment
     try:
         import c01_refconv
-        nrc = 30 if ck.tier == 'quick' else 200
+        nrc = 120 if ck.tier == 'quick' else 1200
         res['refconv'] = c01_refconv.run_refconv(ck, drv, exe, nrc, ck.seed, wd)
     except Exception as ex:
-        res['refconv'] = {'harness_exception': repr(ex)[:300], 'violations': [('refconv-harness', 'harness exception %r' % (ex,))]}
+        res['refconv'] = {'harness_exception': repr(ex)[:300], 'violations': [('refconv-harness', 'harness exception %r' % (ex,), {})]}
     drv.close()
     stats['model_arms'] = dict(sorted(MODEL_ARMS.items()))
     res['disagreements'] = dis
@@ -1392,11 +1393,14 @@ def run_gadgets(ck, n_cases=None, proof=True):
     ck.log('  hit: ' + ', '.join('%s:%d' % kv for kv in sorted(stats['hit'].items())))
     rcv = res.get('refconv') or {}
     if 'compared' in rcv:
-        ck.log('  reference converter `convert` vs real converter: %d fragment models (%d drawn, %d flagged shortcut by the reference), '
-               '%d model x acceptance-set comparisons, %d agree (%.0f%%), %d refusals on both sides, %d disagreements '
-               '(%d with the real delivered model passing the exact oracle = drift of the reference converter)'
-               % (rcv['models'], rcv['drawn'], rcv['shortcut'], rcv['compared'], rcv['agree'],
-                  100.0 * rcv['agree'] / max(1, rcv['compared']), rcv['refusal_agree'], rcv['disagree'], rcv['drift']))
+        ck.log('  reference converter `convert` vs real converter: %d fragment models; %d (model, acceptance set) comparisons not flagged as '
+               'shortcut by the reference: %d agree (%.0f%%; native %s, linear %s; %d delivered rows, %d with auxiliary variables), %d refusals on '
+               'both sides, %d disagreements (%d of them drift: real delivered model passes the exact oracle); flagged as shortcut: %d, '
+               'of which %d agree all the same'
+               % (rcv['models'], rcv['compared'], rcv['agree'], 100.0 * rcv['agree'] / max(1, rcv['compared']),
+                  '%d/%d' % tuple(rcv['by_acc']['native']), '%d/%d' % tuple(rcv['by_acc']['linear']), rcv['rows_compared'], rcv['with_aux_vars'],
+                  rcv['refusal_agree'], rcv['disagree'], rcv['drift'], rcv['shortcut'], rcv['flagged_agree']))
+        ck.log('    definition kinds in compared models: ' + ', '.join('%s:%d' % kv for kv in sorted(rcv['def_kinds'].items())))
         for k, v in sorted(rcv['classes'].items()):
             ck.log('    disagreement class %s: %d' % (k, v))
     if stats['unmodelled']:
